@@ -885,26 +885,34 @@ Proof.
   assert (HS : N.to_nat s = (2 ^ kk)%nat) by (unfold s; apply Nat2N.id).
   pose proof (nat_pow2_pos kk) as HKpos. pose proof (nat_pow2_pos e) as HEpos.
   assert (HM : N.to_nat m = (2 ^ e)%nat) by (rewrite Hm; apply Nat2N.id).
+  assert (Hxr : (N.to_nat x = N.to_nat r * 2 ^ kk + N.to_nat c)%nat)
+    by (rewrite Hx at 1; rewrite N2Nat.inj_add, N2Nat.inj_mul, HS; reflexivity).
+  assert (Hxn : (N.to_nat x = N.to_nat i + N.to_nat o)%nat) by (unfold x; apply N2Nat.inj_add).
+  assert (Homn : (N.to_nat o + N.to_nat m <= N.to_nat n)%nat) by (clear - Hom; lia).
+  assert (Hfitc : (N.to_nat c + N.to_nat m <= 2 ^ kk)%nat) by (rewrite <- HS; clear - Hfit; lia).
+  clear Hrow Hxm Hcm Hi Hfit Hom Hx. clearbody r c x.
   assert (Hrs : (N.to_nat r * 2 ^ kk + 2 ^ kk <= length sq)%nat).
-  { assert (Hxlt : (N.to_nat x < 2 ^ kk * 2 ^ kk)%nat) by (unfold x; lia).
-    assert (Hxr : (N.to_nat x = N.to_nat r * 2 ^ kk + N.to_nat c)%nat) by (rewrite Hx at 1; rewrite N2Nat.inj_add, N2Nat.inj_mul, HS; reflexivity).
-    assert (Hrlt : (N.to_nat r < 2 ^ kk)%nat) by nia.
-    rewrite Hsq. nia. }
+  { rewrite Hsq.
+    assert (Hrlt : (N.to_nat r < 2 ^ kk)%nat).
+    { destruct (Nat.lt_ge_cases (N.to_nat r) (2 ^ kk)) as [Hlt|Hge]; [exact Hlt|].
+      pose proof (Nat.mul_le_mono_r _ _ (2 ^ kk)%nat Hge) as Hmul. rewrite Hsq in Hn. lia. }
+    pose proof (Nat.mul_le_mono_r _ _ (2 ^ kk)%nat Hrlt) as Hmul. lia. }
   set (row := takeN s (dropN (r * s) sq)).
   assert (Hrowlen : length row = (2 ^ kk)%nat).
   { unfold row, takeN, dropN. rewrite firstn_length, skipn_length, N2Nat.inj_mul, HS. lia. }
   assert (Hsplit : (2 ^ kk = 2 ^ (kk - e) * 2 ^ e)%nat) by (rewrite <- Nat.pow_add_r; f_equal; lia).
   assert (Hcn : N.to_nat c = (p * 2 ^ e)%nat) by (rewrite Hc at 1; apply Nat2N.id).
-  assert (Hfitn : (p * 2 ^ e + 2 ^ e <= 2 ^ kk)%nat) by (rewrite <- Hcn, <- HM, <- HS; lia).
-  assert (Hp : (p < 2 ^ (kk - e))%nat) by (rewrite Hsplit in Hfitn; nia).
+  assert (Hfitn : (p * 2 ^ e + 2 ^ e <= 2 ^ kk)%nat) by (rewrite <- Hcn, <- HM; exact Hfitc).
+  assert (Hp : (p < 2 ^ (kk - e))%nat).
+  { destruct (Nat.lt_ge_cases p (2 ^ (kk - e))) as [Hlt|Hge]; [exact Hlt|].
+    pose proof (Nat.mul_le_mono_r _ _ (2 ^ e)%nat Hge) as Hmul. rewrite <- Hsplit in Hmul. lia. }
   rewrite Hc. apply (Hnode row kk e p Hrowlen Hm He Hp).
   (* the shares of the row at that offset are the chunk's shares *)
   unfold row, takeN, dropN. rewrite HS, HM.
   rewrite firstn_skipn_firstn by exact Hfitn. rewrite skipn_skipn_add.
   rewrite <- Hat. unfold takeN, dropN. rewrite firstn_skipn_firstn by lia. rewrite skipn_skipn_add.
   f_equal. f_equal.
-  assert (Hxr : (N.to_nat x = N.to_nat r * 2 ^ kk + N.to_nat c)%nat) by (rewrite Hx at 1; rewrite N2Nat.inj_add, N2Nat.inj_mul, HS; reflexivity).
-  rewrite N2Nat.inj_mul, HS, <- Hcn. unfold x in Hxr. lia.
+  rewrite N2Nat.inj_mul, HS, <- Hcn. lia.
 Qed.
 
 (* Consequently the commitment computed from the blob alone is the merkle root function
